@@ -195,6 +195,8 @@ def check(prog: Program, tier: str) -> Result:
             raise AnalysisError(f"{fi_.qualname}: search loop shape not understood")
         pol = any(isinstance(b, ast.Break) for b in brk[0].body)  # the stopping branch is the body (True) or the else (False)
         stop, go = (brk[0].body, brk[0].orelse) if pol else (brk[0].orelse, brk[0].body)
+        if not go and stop and isinstance(stop[-1], ast.Break) and any(s_ is brk[0] for s_ in loop.body):
+            go = loop.body[loop.body.index(brk[0]) + 1:]  # 'else' left out after the break: what follows the if is the other branch
         mon = next((s_.targets[0].id for s_ in stop if isinstance(s_, ast.Assign) and isinstance(s_.targets[0], ast.Name) and ast.unparse(s_.value) == idx), None)
         if mon is None:
             raise AnalysisError(f"{fi_.qualname}: the search does not record the month index when it stops")
@@ -272,7 +274,7 @@ def check(prog: Program, tier: str) -> Result:
         s2.env[R["HIY"]] = Rat.atom("hours_in_year")
         s2.env[R["IDX"]] = Rat.atom("idx")
         s2.env[ACC] = Rat.atom("ACC")
-        run(e2, [s_ for s_ in loop.body if s_ is not brk], s2)
+        run(e2, loop.body[:loop.body.index(brk)] if any(s_ is brk for s_ in loop.body) else [s_ for s_ in loop.body if s_ is not brk], s2)
         from ..paths import cmp_is, negate
 
         c = e2.cond(brk.test, s2)
